@@ -141,4 +141,44 @@ mod verif_nx_mlstring {
         println!("NX mlstring_lines_custom: {} cases", n);
         assert!(n > 100_000, "enumeration ran");
     }
+    // format_multiline_strings: "returns true if and only if a token is mutated" (its own doc comment; the caller re-wraps
+    // exactly the lines for which it returns true - C03), only unignored multi-line literals are touched (C07, C12)
+    #[test]
+    fn verif_nx_mlstring_changed_flag() {
+        let rs = ReconstructionSettings::new(LineEnding::Lf, TabKind::Soft, 2, 2);
+        let sf = StringFormatter { recon_settings: &rs };
+        // literal texts: already at indentation 2, at 4, at 0, mis-indented, and a single-line literal
+        let lits = ["'''\n  a\n  '''", "'''\n    a\n    '''", "'''\na\n'''", "'''\n a\n  '''", "'x'"];
+        let mut n = 0u64;
+        for l1 in lits { for l2 in lits { for ign1 in [false, true] { for ign2 in [false, true] { for ind in 0..=2u16 {
+            let kind = |l: &str| if l.contains('\n') { TokenType::TextLiteral(TextLiteralKind::MultiLine) } else { TokenType::TextLiteral(TextLiteralKind::SingleLine) };
+            let mut toks = [
+                Token::new_ref("S", 0, TokenType::Identifier),
+                Token::new_ref(l1, 0, kind(l1)),
+                Token::new_ref("+", 0, TokenType::Op(OperatorKind::Plus)),
+                Token::new_ref(l2, 0, kind(l2)),
+                Token::new_ref(";", 0, TokenType::Op(OperatorKind::Semicolon)),
+            ];
+            let mut ft = FormattedTokens::verif_nx_new(&mut toks, vec![
+                FormattingData::verif_nx_new(false, 1, 0, 0, 0),
+                FormattingData::verif_nx_new(ign1, 1, ind, 0, 0),
+                FormattingData::verif_nx_new(false, 0, 0, 0, 1),
+                FormattingData::verif_nx_new(ign2, 1, ind, 0, 0),
+                FormattingData::verif_nx_new(false, 0, 0, 0, 0),
+            ]);
+            let line = LogicalLine::new(None, 0, vec![0, 1, 2, 3, 4], LogicalLineType::Assignment);
+            let flag = sf.format_multiline_strings(&line, &mut ft);
+            let after1 = ft.get_token(1).unwrap().0.get_content().to_string();
+            let after2 = ft.get_token(3).unwrap().0.get_content().to_string();
+            let mutated = after1 != l1 || after2 != l2;
+            assert!(flag == mutated, "OB mlstring/changed_flag: format_multiline_strings returns true if and only if a token was mutated\n lit1={:?} lit2={:?} ign=({},{}) ind={} flag={} after1={:?} after2={:?}", l1, l2, ign1, ign2, ind, flag, after1, after2);
+            assert!(!(ign1 && after1 != l1) && !(ign2 && after2 != l2), "OB mlstring/ignored_untouched: an ignored literal is never rewritten\n lit1={:?} lit2={:?}", l1, l2);
+            assert!((l1.contains('\n') || after1 == l1) && (l2.contains('\n') || after2 == l2), "OB mlstring/only_multiline_literals: only multi-line literals are rewritten\n lit1={:?} lit2={:?}", l1, l2);
+            assert!(ft.get_token(0).unwrap().0.get_content() == "S" && ft.get_token(2).unwrap().0.get_content() == "+", "OB mlstring/other_tokens_untouched: no other token text changes");
+            n += 1;
+        }}}}}
+        println!("NX mlstring_changed_flag: {} cases", n);
+        assert!(n == 300, "enumeration ran");
+    }
+
 }
